@@ -376,6 +376,8 @@ func runC19(c *core.Ctx) {
 
 	c.Clause("D13", func() { runDoubleCheckedInsert(c, lockPkgs, 1) })
 
+	c.Clause("D14", func() { runClosedChannelReceives(c, lockPkgs, 2) })
+
 	c.Clause("D12", func() {
 		runNoWaitUnderLock(c, lockPkgs, 3)
 		if c.Tier == "thorough" {
